@@ -22,6 +22,14 @@ pub struct StringNumber {
     pub is_all_zero: bool,
 }
 
+#[cfg(sudachi_verif)]
+impl StringNumber {
+    pub fn verif_state(&self) -> serde_json::Value {
+        let sig: Vec<u32> = self.significand.chars().map(|c| c as u32 - 48).collect();
+        serde_json::json!({"sig": sig, "scale": self.scale, "point": self.point, "allzero": self.is_all_zero})
+    }
+}
+
 impl StringNumber {
     pub fn new() -> StringNumber {
         StringNumber {
